@@ -627,7 +627,19 @@ def c18_worker(res: Result, i: int, n: int) -> None:
             b["last_offset_delta"] = 0
             b["max_timestamp"] = b["base_timestamp"]
             res.count("batches_beyond_16MiB")
-            _identity(res, recref.encode_batch(b), b, f"huge batch {size >> 20} MiB")
+            raw = recref.encode_batch(b)
+            _identity(res, raw, b, f"huge batch {size >> 20} MiB")
+            if size < (32 << 20):
+                # damage is damage at any size: a few flipped bits (payload, header, CRC field) and cuts
+                origin = {"origin": f"huge batch {size >> 20} MiB", "bytes": b"<%d bytes>" % len(raw)}
+                for pos in (17, 20, 30, 61, len(raw) // 2, len(raw) - 1, rng.randrange(61, len(raw))):
+                    d = bytearray(raw)
+                    d[pos] ^= 1 << rng.randrange(8)
+                    _must_fail(res, bytes(d), "bitflip", f"huge@{pos}", outcomes, origin)
+                    res.count("bit_flips")
+                for cut in (len(raw) - 1, len(raw) - 3, len(raw) // 2, 61):
+                    _must_fail(res, raw[:cut], "truncation", f"cut@{cut}", outcomes, origin)
+                    res.count("truncations")
     for k in range(i, 24 if res.tier == "quick" else 400, n):
         rng = common.rng_for("C18", "tiny", k)
         b, cell = tiny_records_batch(rng, (49, 50, 51, 64, 100, 128, 300, 1000)[k % 8] if k < 16 else None)
